@@ -141,6 +141,7 @@ func cmdCheck(args []string) {
 		haveUnit[un.Fn] = true
 	}
 	depUnits := map[string]bool{}
+	unmatched := map[string]bool{} // "<fn>: <pattern>" for clause filters that selected no obligation (a stale filter checks nothing)
 	assumedBodies := map[string]string{}
 	heldBack := map[string][]*Obligation{}
 	for ui := 0; ui < len(units); ui++ {
@@ -168,6 +169,7 @@ func cmdCheck(args []string) {
 		for _, fn := range fns {
 			res := w.verifyFunc(fn, w.contractFor(fn), execMode{concurrency: un.Conc})
 			var sel []*Obligation
+			hits := make([]int, len(incs))
 			for _, o := range res.Obls {
 				suffix := strings.TrimPrefix(o.Name, res.Name+"/")
 				// structurally split goals (ensures:label.1.2, ensures:label:Pred.1, ensures:label~pos) match as their clause
@@ -179,9 +181,10 @@ func cmdCheck(args []string) {
 					}
 				}
 				keep := len(incs) == 0 || o.Kind == "subset" || o.Kind == "cover" || o.Kind == "vacuity"
-				for _, re := range incs {
+				for i, re := range incs {
 					if re.MatchString(suffix) || re.MatchString(base) {
 						keep = true
+						hits[i]++
 					}
 				}
 				for _, p := range un.Exclude {
@@ -191,6 +194,13 @@ func cmdCheck(args []string) {
 				}
 				if keep {
 					sel = append(sel, o)
+				}
+			}
+			for i, n := range hits {
+				// kinds that exist only where the code has the construct (or only on failure) may legitimately select nothing
+				optional := regexp.MustCompile(`^\^?(unlock-unheld|lockorder|guard|atomic|frame|ghost|assert_at|inv-|pre:|blocks|selects|tokens)`).MatchString(un.Include[i])
+				if n == 0 && ui < len(pd.Units) && !optional {
+					unmatched[un.Fn+": "+un.Include[i]] = true
 				}
 			}
 			for _, o := range res.Obls {
@@ -412,6 +422,7 @@ func cmdCheck(args []string) {
 			"functions_under_contract":               sortedKeys(funcs),
 			"callee_contracts_used":                  sortedKeys(contractsUsed),
 			"dependency_units":                       sortedKeys(depUnits),
+			"clause_filters_without_match":           sortedKeys(unmatched),
 			"assumed_contracts_without_body":         assumedOnly(w, contractsUsed),
 			"assumed_contracts_with_unverified_body": assumedBodies,
 			"inlined_callees":                        sortedKeys(inlined),
@@ -433,6 +444,9 @@ func cmdCheck(args []string) {
 	}
 	for _, l := range lines {
 		fmt.Println(l)
+	}
+	for _, x := range sortedKeys(unmatched) {
+		fmt.Fprintln(os.Stderr, "govc: note: clause filter selected nothing:", x)
 	}
 	fmt.Printf("%s %s: %d obligations, %d discharged, %d canaries (%d inconclusive), %d violations, %.1fs\n", id, tier, nObl, discharged, canaries["total"], canaries["inconclusive"], violations, wall)
 	if len(reports) == 0 {
